@@ -9,6 +9,7 @@ the `fmt dump` / `fmt load` correspondence streams.
 -/
 import Iodata.Lemmas.Fmt.Xyz
 import Iodata.Lemmas.Fmt.Sdf
+import Iodata.Lemmas.Fmt.Pdb
 import Iodata.Gen.Layouts
 
 namespace Iodata.Props.C02
@@ -95,5 +96,57 @@ example : Sdf.Dom tables sdfL ⟨[], sdfC100 ++ [⟨⟨false, 999999999⟩, ⟨t
 
 example : Sdf.load tables sdfL (Sdf.dump tables sdfL ⟨['t'], sdfC100 ++ sdfC100, [⟨100, 109, 1⟩]⟩)
     = .ok ⟨['t'], sdfC100 ++ sdfC100, [⟨100, 109, 1⟩]⟩ := by decide +kernel
+
+/-! ## PDB
+
+Full statement: `∀ o (every field fits its columns, bonds between existing atoms),
+  Pdb.load T L (Pdb.dump T L o) = .ok (Pdb.norm L o)` where `norm` keeps title and atoms and turns the
+bond list into `normBonds` (each unordered pair once, ordered by first atom; PDB stores no bond type).
+Proved: the ATOM record for every atom (`pdb_atom_record`), and whole files without CONECT records
+(`pdb_load_dump_partial`).  Missing: the CONECT writer/reader loop (chunks of four, both directions) is
+modelled and executed in the correspondence (`dump:pdb`, `load:pdb` compare whole files with bonds byte
+for byte) but its round trip is not proved. -/
+
+/-- PDB: the ATOM record written for any atom whose fields fit their columns (name ≤ 4, residue ≤ 3,
+resSeq ≤ 4 characters incl. sign, x/y/z in `8.3f`, occupancy/B in `6.2f`, serial ≤ 5 digits) is cut by
+the reader's slices into exactly that atom — for every layout whose writer columns equal the reader slices. -/
+theorem pdb_atom_record (T : Tables) (L : Pdb.Layout) (hL : Pdb.LayoutOK L) (serial : Nat) (a : Pdb.Atom)
+    (hser : (natToDec serial).length ≤ L.serialW) (ha : Pdb.AtomOK T L a) :
+    Pdb.parseAtom T L (Pdb.dumpAtom T L serial a) = .ok a :=
+  Pdb.parseAtom_dumpAtom T L hL serial a hser ha
+
+/-- PDB, partial (no CONECT records): the written file is read back as the object, for any number of
+atoms the serial column holds. -/
+theorem pdb_load_dump_partial (T : Tables) (L : Pdb.Layout) (hL : Pdb.LayoutOK L) (o : Pdb.Obj) (h : Pdb.Dom T L o) :
+    Pdb.load T L (Pdb.dump T L o) = .ok (Pdb.norm L o) :=
+  Pdb.load_dump T L hL o h
+
+/-- PDB: the layout in the source satisfies the side conditions: the writer's ATOM columns are the
+reader's slices; every element symbol fits the two element columns and is mapped back. -/
+theorem pdb_layout_ok : Pdb.LayoutOK pdbL ∧ ∀ z ∈ List.range' 1 118, Pdb.okZ tables z = true := by
+  decide +kernel
+
+/-- PDB: the writer and the reader in the source have the fields / slices the model uses. -/
+theorem pdb_source_shape :
+    Pdb.expectedAtomWrite pdbL ∈ pdb_writes ∧ Pdb.expectedConectWrite pdbL ∈ pdb_writes ∧
+    pdb_slices = Pdb.expectedSlices pdbL := by
+  decide +kernel
+
+/-- PDB: the CONECT writer fills the columns the reader cuts (`CONECT`, then five 5-column fields). -/
+theorem pdb_conect_writer_columns_eq_reader_slices :
+    Pdb.conectWriterColumns pdbL = Pdb.conectColumns pdbL := by decide +kernel
+
+/-- PDB (former counter-example, fixed by ce4a9da): the record `CONECT1000010001` written for the bond
+between atoms 10000 and 10001 is read back as that bond; a full record of four partners as well. -/
+theorem pdb_conect_examples :
+    Pdb.conectLine pdbL 9999 [10000] = "CONECT1000010001\n".toList ∧
+    Pdb.parseConect pdbL (Pdb.conectLine pdbL 9999 [10000]) = .ok [(9999, 10000)] ∧
+    Pdb.parseConect pdbL (Pdb.conectLine pdbL 5 [99998, 0, 6, 12344]) = .ok [(5, 99998), (5, 6), (5, 12344)] := by
+  decide +kernel
+
+/-- non-vacuity at the column boundaries: x = −999.999, y = 9999.999, resSeq −999 and 9999, B = 999.99. -/
+example : Pdb.Dom tables pdbL ⟨[], [⟨17, ['C','l','1','2'], ['A','B','C'], 'A', -999, ⟨true, 999999⟩, ⟨false, 9999999⟩,
+    ⟨true, 0⟩, ⟨false, 100⟩, ⟨false, 99999⟩⟩, ⟨1, [], [], ' ', 9999, ⟨false, 0⟩, ⟨false, 1⟩, ⟨true, 1⟩, ⟨true, 999⟩, ⟨false, 0⟩⟩], []⟩ := by
+  decide +kernel
 
 end Iodata.Props.C02
